@@ -54,9 +54,15 @@ def frow(l):
     return "[" + "; ".join(f"({k}%N, {Q.fhex(float.fromhex(v))})" for k, v in l) + "]"
 
 
-def floateval_stream(rng, ncases, streams, viol, samples, which=("decay",)):
-    names, stable = U.dataset_names()
-    cases = [c for c in D.gen_cases(rng, names, stable, ncases, max(2, ncases // 3), "Inventory") if "pre" not in c and c["unit"] == "num"]
+def floateval_stream(rng, ncases, streams, viol, samples, which=("decay",), ds=None):
+    names, stable = D.names_of(ds)
+    cases = [c for c in D.gen_cases(rng, names, stable, ncases, max(2, ncases // 3), "Inventory", ds=ds) if "pre" not in c and c["unit"] == "num"]
+    sfx = "_" + ds if ds else ""
+    def loc(pre):      # the same checker text, bound to the data set under test
+        if not ds:
+            return pre
+        return (pre.replace("Model.Default", "Model.Default Model.Synth").replace("Proofs.CertDefault.FloatDataCert", "Proofs.CertSynth.SynthCert")
+                .replace("ds_cf Default", "ds_cf Synth").replace("ds_cif Default", "ds_cif Synth").replace("default_lam_val", "synth_lam_val"))
     for c in cases:
         c["cum"] = "cum" in which
     impl = U.run_impl("impl_floateval.py", cases, timeout=3000)
@@ -77,10 +83,10 @@ def floateval_stream(rng, ncases, streams, viol, samples, which=("decay",)):
             ncrows += len(r["rows_cum"])
             cterms.append(f"({Q.fhex(float.fromhex(r['secs']))}, {frow(r['e_cum'])}, {frow(r['n0'])}, {crows})")
             cmap.append(kk)
-    cbad, cerrs = ([], []) if not cterms else Q.run_cases("floatcum", PRE_CUM, "float * frow * frow * list (N * list N * list N * float * float)", cterms, "chk_cum",
+    cbad, cerrs = ([], []) if not cterms else Q.run_cases("floatcum" + sfx, loc(PRE_CUM), "float * frow * frow * list (N * list N * list N * float * float)", cterms, "chk_cum",
                               shard=12, timeout=1500)
     if "cum" in which:
-      streams["cumulative_bitlevel"] = {"cases": len(cterms), "entries": ncrows, "model_disagrees": len(cbad), "coq_errors": len(cerrs),
+      streams["cumulative_bitlevel" + sfx] = {"cases": len(cterms), "entries": ncrows, "model_disagrees": len(cbad), "coq_errors": len(cerrs),
                                       "what": "Inventory.cumulative_decays vs the primitive-float model (same product chain with the diagonal "
                                               "(1-exp(-lambda t))/lambda observed, then one multiplication by the float decay constant): bit-identical; "
                                               "side conditions and accuracy of the stored diagonal checked per case"}
@@ -93,8 +99,8 @@ def floateval_stream(rng, ncases, streams, viol, samples, which=("decay",)):
         viol.append({"name": "cum-bitlevel-coq", "found_input": False, "key": "cum-bitlevel-coq", "payload": {"broken": "Coq evaluation failed", "errors": cerrs[:2]}})
     if "decay" not in which:
         return
-    bad, errs = Q.run_cases("floateval", PRE, "float * frow * frow * list (N * list N * list N * float)", terms, "chk", shard=12, timeout=1500)
-    streams["decay_bitlevel"] = {"cases": len(cases), "entries": nrows, "model_disagrees": len(bad), "impl_property_failures": len(bad_prop),
+    bad, errs = Q.run_cases("floateval" + sfx, loc(PRE), "float * frow * frow * list (N * list N * list N * float)", terms, "chk", shard=12, timeout=1500)
+    streams["decay_bitlevel" + sfx] = {"cases": len(cases), "entries": nrows, "model_disagrees": len(bad), "impl_property_failures": len(bad_prop),
                                  "coq_errors": len(errs),
                                  "what": "Inventory.decay vs the primitive-float model of ((C@E)@C^-1)@N0 with SciPy's accumulation orders observed: "
                                          "every returned amount bit-identical and finite; every hypothesis of default_float_decay_error (Props/C01d.v) is checked "
